@@ -2453,6 +2453,10 @@ void DGXMLScanner::scanReset(const InputSource& src)
     if (fValidatorFromUser)
         fValidator->reset();
 
+    //  A progressive parse that was abandoned without parseReset() leaves its
+    //  readers behind; flush them so that this parse starts from a clean slate.
+    fReaderMgr.reset();
+
     //  Handle the creation of the XML reader object for this input source.
     //  This will provide us with transcoding and basic lexing services.
     XMLReader* newReader = fReaderMgr.createReader
